@@ -102,3 +102,52 @@ PENDING.pop("C08", None)
 _p("C17", "other",
    "Static necessary conditions of 'Jaqal text, the builder API and Q-syntax build the same circuit': S-expression protocol agreement -- every list/tuple display with a known head emitted by the parser actions, Q-syntax, the OO builder and the two re-serialising passes is consumed by a build_<head> whose destructuring accepts its arity (starred parts of parser actions are resolved through per-nonterminal length sets), and no default-argument path emits both the default and the missing argument; every parameter of the public builder / Q methods reaches the emitted S-expression or returned object (no dead parameter); the auto-namer checks generated names against both user-name lists and only leaves its loop on a fresh name; the implicit prepare/measure are guarded by one flag around the statement loop and the starts_with_prepare overrides have the stated shape. Does not decide equality of the three circuits.")
 PENDING.pop("C17", None)
+
+# clauses added after seed rounds 3 and 4 (DESIGN.md section 11, "Additions ...")
+_FZ = " Falsy-zero analysis (E10): no value slot that can hold the number 0 (count, index, macro argument, let value, S-expression argument, numeric grammar value) is tested by truthiness in the modules implementing this property."
+_FP = " Fast-path rule: a path that returns (part of) its input untransformed is guarded by a test that consults every part it skips."
+ADDENDA = {
+    "C01": _FZ + " C01.8: keyword calls fill the argument dict in definition order (the generator prints arguments positionally).",
+    "C02": _FZ,
+    "C03": " C03.5: once the trace has started the serialiser emits a loop body exactly range(loop.iterations) times. C03.6: no memoised function returns a freshly allocated mutable buffer (state vectors handed out would be overwritten).",
+    "C04": _FZ + _FP + " C04.8: the substitution map is keyed by the inlined macro's own parameter names (positional binding).",
+    "C05": _FZ + _FP,
+    "C06": " C06.5: alias fill-in tests a qubit's dependence on macro parameters before the context-free resolve_qubit(). C06.6-8 scope discipline: the resolution context is consulted by name only for macro parameters; no table keyed by the bare name of a visited reference; re-serialising passes hand the builder resolved objects, not name-bearing S-expressions.",
+    "C07": _FP + " C07.5-7 scope discipline (as C06.6-8). C07.8: while NamedQubit.__eq__ compares the source by name, __hash__ includes the source object (the builder's memo keys on built objects).",
+    "C08": " C08.4: a handler that delegates inside `for .. in range(n)` under the walker's waiting while-loop treats n <= 0 explicitly (termination for zero-count loops). C08.5: the zero-count branch skips only traces that start inside the loop.",
+    "C09": _FZ + _FP + " C09.8: expand_macros inlines the macro table's entry, not the definition object a call statement carries (other passes rebuild macros without re-linking calls).",
+    "C10": _FZ + _FP + " C10.5: a subcircuit block replaced by a plain block is spliced into a sequential parent (one open known finding). C10.8: int()/float() of a value slot outside let substitution only under an isinstance test for plain numbers. C10.9: macro table lookup. C10.10: symbolic qubits inside macros are left alone by alias fill-in.",
+    "C13": _FZ + " C13.2: the disjointness flag is block.parallel itself, nothing weaker. C13.6: the scope in which call arguments are resolved is not written in the same handler.",
+    "C16": " C16.12 computed range() steps are tested against zero; C16.13 handlers that swallow int()/float() failures cover TypeError, ValueError and OverflowError (ValueError for lexer text); C16.14 class-specific attributes of context look-ups are read under isinstance; C16.15 zero-trip loops under a waiting while; C16.16 sys.modules registration/eviction/rollback (one open known finding); C16.17 every entry point that reaches a recursion cycle converts RecursionError above it; C16.18 no memoised function returns a mutable buffer.",
+    "C17": _FZ,
+    "C18": " C18.1 also decides bulk fills (params.update(kwargs) follows the caller's keyword order) and recognises three spellings of unknown-keyword rejection.",
+    "C19": _FP + " C19.5: the unroller keeps a block whole iff parallel or subcircuit, with no further conjunct.",
+    "C20": _FZ + " C20.6: no __eq__ result depends on a numeric type test of one operand outside the NaN case.",
+}
+for _pid, _txt in ADDENDA.items():
+    if _pid in PROPS:
+        PROPS[_pid]["explanation"] += _txt
+
+# clauses added after the defect hunts (DESIGN.md section 11, "Defect hunts ...")
+ADDENDA2 = {
+    "C01": " C01.9 numeric literals are keyed type-exactly in the gate memo; C01.10 the NUMBER rule rejects non-finite values.",
+    "C02": " C02.7 builder bookkeeping keys are not spellable as identifiers; C02.8 no token language is shadowed by an earlier lexer rule (decided on the automata).",
+    "C04": " C04.9 a map-declared qubit alias keeps its name through macro expansion.",
+    "C05": " C05.8 no computed alias size is frozen into a bound at build time; C05.9 declared alias names are kept; C05.10 overriding values pass through the normaliser applied to declared values.",
+    "C06": " C06.9 (as C05.8); C06.10 alias fill-in tests the resolved register's name against the enclosing macro's parameters; the symbolic-qubit guard covers let constants.",
+    "C07": " C07.9 (as C02.7); C07.10 (as C05.9); C07.11 (as C01.9).",
+    "C08": " C08.6 subcircuit discovery rejects traces closed or left open inside a body that does not run exactly once.",
+    "C09": " C09.9 a visitor that constructs Macro objects re-links macro calls.",
+    "C10": " C10.11 (as C06.10).",
+    "C13": " C13.1 also requires that a subcircuit block counts as all qubits.",
+    "C14": " C14.2 repeated macro parameter names are rejected; C14.4 counts arising by macro substitution are kind-checked and register sizes are positive.",
+    "C15": " C15.7 every padded bit-string view takes its width from measured_qubits.",
+    "C16": " C16.7 the parser's error callback computes a position on both paths; C16.19 (as C01.10); C16.20 file-based module loading tests the very file/directory first.",
+    "C17": " C17.8 every front end resolves pulse modules through the one loader.",
+    "C18": " C18.3 stretched variants are keyed by a real name; C18.4 Parameter.validate performs no numeric conversion of the candidate value.",
+    "C19": " C19.6 the normaliser handles every statement container, loops included.",
+    "C20": " C20.7 a case split in __eq__ on a property of self is matched by a test of the same property on other.",
+}
+for _pid, _txt in ADDENDA2.items():
+    if _pid in PROPS:
+        PROPS[_pid]["explanation"] += _txt
